@@ -7,6 +7,7 @@ import (
 	"fmt"
 	"net"
 	"net/netip"
+	"os"
 	"runtime"
 	"slices"
 	"sort"
@@ -61,8 +62,13 @@ var (
 		"10.0.0.0/24", "10.0.0.0/28",
 	}
 	// Addresses that can only resolve through a CIDR or a lease.
-	c04CExtraAddrs = []string{"10.0.0.77", "10.0.0.9", "10.9.9.9", "172.16.1.1"}
-	c04CLeases     = map[string]string{"10.9.9.9": "aa:bb:cc:00:00:01", "10.0.0.6": "aa:bb:cc:00:00:02", "172.16.1.1": "aa:bb:cc:00:00:02"}
+	c04CExtraAddrs = []string{"10.0.0.77", "10.0.0.9", "10.9.9.9", "172.16.1.1", "192.168.77.7", "2001:db8::77"}
+	c04CLeases     = map[string]string{"10.9.9.9": "aa:bb:cc:00:00:01", "10.0.0.6": "aa:bb:cc:00:00:02", "172.16.1.1": "aa:bb:cc:00:00:02",
+		"192.168.77.7": "aa:bb:cc:00:00:01", "2001:db8::77": "aa:bb:cc:00:00:02"}
+	// Leased addresses that are neither an exact-IP identifier nor inside a
+	// CIDR of the pool: every lookup of them ends in the DHCP fallback (MAC of
+	// the lease, then the client that lists the MAC).
+	c04CLeasedOnly = []string{"10.9.9.9", "172.16.1.1", "192.168.77.7", "2001:db8::77"}
 	// Custom upstreams make validation of a client take as long as it does for
 	// real clients that have them.
 	c04CUpstreams = []string{"1.1.1.1", "8.8.8.8", "[/example.org/]9.9.9.9", "[/example.com/]tls://dns.example"}
@@ -215,7 +221,9 @@ func c04CModel(init string) porcupine.Model {
 					want = strings.Join(m[op.Name], ",")
 				}
 				return out == want, st
-			case "find":
+			case "find", "findloose":
+				// FindLoose(ip, ip.String()) differs from Find only by a
+				// zone-insensitive exact match; the pool has no zones.
 				want := c04CResolve(m, op.Probe, op.Probe)
 				if want == "" {
 					want = "-"
@@ -274,8 +282,17 @@ func (r *c04CRound) violate(key, what string, detail map[string]any) {
 }
 
 func TestVerifC04Concurrent(t *testing.T) {
-	rep := verifkit.New("C04", "concurrent",
-		"case = one round: a fresh client.Storage with 1-3 clients, 2-4 writer goroutines doing seeded Add / Update (new identifiers) / RemoveByName on the same 3 names and 1-2 reader goroutines (FindByName, Find, ApplyClientFiltering), all released together; judged at quiescence (identifier -> lister consistency, unique names, free identifiers and names can be taken) and by a linearizability check of all recorded calls; non-trivial = two writes on one name overlapped in time; distinct by the operations, their results and their call/return order")
+	// The same workload also serves as a race/crash monitor of another
+	// property (C05 registers it as its part "clients").
+	prop, part := os.Getenv("VERIF_CLIENT_PROP"), os.Getenv("VERIF_CLIENT_PART")
+	if prop == "" {
+		prop = "C04"
+	}
+	if part == "" {
+		part = "concurrent"
+	}
+	rep := verifkit.New(prop, part,
+		"case = one round: a fresh client.Storage with 1-3 clients, 2-4 writer goroutines doing seeded Add / Update (new identifiers) / RemoveByName on the same 3 names and 1-2 reader goroutines (FindByName, Find, FindLoose, ApplyClientFiltering; half of the address lookups on leased addresses that only the DHCP fallback resolves, while writers also use the leases' MACs), all released together; judged at quiescence (identifier -> lister consistency, unique names, free identifiers and names can be taken) and by a linearizability check of all recorded calls; non-trivial = two writes on one name overlapped in time; distinct by the operations, their results and their call/return order")
 	defer func() {
 		if err := rep.Write(); err != nil {
 			t.Fatal(err)
@@ -300,6 +317,10 @@ func TestVerifC04Concurrent(t *testing.T) {
 			id := c04CPool[rng.Intn(len(c04CPool))]
 			if strings.Contains(id, "/") && rng.Intn(3) != 0 {
 				continue
+			}
+			if rng.Intn(4) == 0 {
+				// Clients identified by the MACs of the leases.
+				id = c04CPool[10+rng.Intn(2)]
 			}
 			if !slices.Contains(ids, id) {
 				ids = append(ids, id)
@@ -373,20 +394,32 @@ func TestVerifC04Concurrent(t *testing.T) {
 		for g := nW; g < nW+nR; g++ {
 			for k := 6 + rng.Intn(8); k > 0; k-- {
 				op := c04COp{G: g}
-				switch rng.Intn(3) {
+				// Half of the address lookups use an address that only a DHCP
+				// lease can resolve.
+				addr := func() string {
+					if rng.Intn(2) == 0 {
+						return c04CLeasedOnly[rng.Intn(len(c04CLeasedOnly))]
+					}
+					return probeAddrs[rng.Intn(len(probeAddrs))]
+				}
+				switch rng.Intn(5) {
 				case 0:
 					op.Kind, op.Name = "findbyname", c04CNames[rng.Intn(len(c04CNames))]
 				case 1:
 					op.Kind = "find"
-					if rng.Intn(2) == 0 {
-						op.Probe = probeAddrs[rng.Intn(len(probeAddrs))]
+					if rng.Intn(3) != 0 {
+						op.Probe = addr()
 					} else {
 						op.Probe = c04CPool[6+rng.Intn(6)]
 					}
+				case 2, 3:
+					// As the query log's and the statistics' client lookups call
+					// it: the address and its string form.
+					op.Kind, op.Probe = "findloose", addr()
 				default:
 					op.Kind = "apply"
-					op.Addr = probeAddrs[rng.Intn(len(probeAddrs))]
-					if rng.Intn(2) == 0 {
+					op.Addr = addr()
+					if rng.Intn(3) == 0 {
 						op.CID = c04CPool[6+rng.Intn(4)]
 					}
 				}
@@ -462,6 +495,26 @@ func TestVerifC04Concurrent(t *testing.T) {
 				}
 			}
 		}
+		// Lookups that end in the DHCP fallback, and those that overlap a write.
+		for _, a := range r.ops {
+			probe := a.Probe
+			if a.Kind == "apply" {
+				probe = a.Addr
+			}
+			if (a.Kind != "find" && a.Kind != "findloose" && a.Kind != "apply") || !slices.Contains(c04CLeasedOnly, probe) {
+				continue
+			}
+			rep.Event("dhcp_fallback_lookups:" + a.Kind)
+			if a.Result != "-" {
+				rep.Event("dhcp_fallback_lookups_resolved_to_mac_client")
+			}
+			for _, b := range r.ops {
+				if (b.Kind == "add" || b.Kind == "update" || b.Kind == "remove") && a.Call < b.Ret && b.Call < a.Ret {
+					rep.Event("dhcp_fallback_lookups_overlapping_a_write:" + a.Kind)
+					break
+				}
+			}
+		}
 		if overlap {
 			overlapRounds++
 			rep.Class("round_with_overlapping_writes_on_one_name")
@@ -524,7 +577,9 @@ func TestVerifC04Concurrent(t *testing.T) {
 		if rep.Events["porcupine_timeouts"] > rep.Events["porcupine_histories"]/20 {
 			rep.Inconcl(fmt.Sprintf("porcupine timed out on %d of %d histories", rep.Events["porcupine_timeouts"], rep.Events["porcupine_histories"]))
 		}
-		for _, ev := range []string{"overlapping_writes_on_one_name:update||update", "overlapping_writes_on_one_name:remove||update", "overlapping_writes_on_one_name:add||update"} {
+		for _, ev := range []string{"dhcp_fallback_lookups_overlapping_a_write:find", "dhcp_fallback_lookups_overlapping_a_write:findloose",
+			"dhcp_fallback_lookups_overlapping_a_write:apply", "dhcp_fallback_lookups_resolved_to_mac_client",
+			"overlapping_writes_on_one_name:update||update", "overlapping_writes_on_one_name:remove||update", "overlapping_writes_on_one_name:add||update"} {
 			if rep.Events[ev] < 10 {
 				rep.Inconcl(fmt.Sprintf("event %q seen only %d times", ev, rep.Events[ev]))
 			}
@@ -566,6 +621,15 @@ func c04CExec(ctx context.Context, st *client.Storage, op *c04COp, tick func() i
 	case "find":
 		op.Call = tick()
 		p, ok := st.Find(op.Probe)
+		op.Ret = tick()
+		op.Result = "-"
+		if ok && p != nil {
+			op.Result = p.Name
+		}
+	case "findloose":
+		a := netip.MustParseAddr(op.Probe)
+		op.Call = tick()
+		p, ok := st.FindLoose(a, op.Probe)
 		op.Ret = tick()
 		op.Result = "-"
 		if ok && p != nil {
@@ -703,7 +767,9 @@ func c04CQuiescent(ctx context.Context, r *c04CRound, st *client.Storage, leases
 		p, ok := st.Find(s)
 		setts := &filtering.Settings{}
 		st.ApplyClientFiltering("", a, setts)
+		pl, okl := st.FindLoose(a, s)
 		if !check("Find", s, "addr", name(p, ok), cands, tier) ||
+			!check("FindLoose", s, "addr", name(pl, okl), cands, tier) ||
 			!check("ApplyClientFiltering", s, "addr", setts.ClientName, cands, tier) {
 			return
 		}
